@@ -84,3 +84,9 @@ Fixpoint forallb2 {A B} (f : A -> B -> bool) (a : list A) (b : list B) : bool :=
   | x :: a', y :: b' => f x y && forallb2 f a' b'
   | _, _ => false
   end.
+
+Fixpoint mapM_r {A B} (f : A -> result B) (l : list A) : result (list B) :=
+  match l with
+  | [] => Ok []
+  | x :: t => do y <- f x ;; do ys <- mapM_r f t ;; Ok (y :: ys)
+  end.
